@@ -39,6 +39,7 @@ def run(hist, transport, path):
         iscsi.DEVICE = tgt.iscsi_device
         dev = iscsi_device.ISCSIDevice("iscsi://127.0.0.1/iqn.verif:t/0")
     res = []
+    held = []          # (index, the data-in buffer object of a READ whose command object was dropped): looked at again after the history
     try:
         facade = SCSI(dev, hist.get("facade_bs", hist["bs"]))
         attach = [list(c) for c in tgt.log]
@@ -56,11 +57,18 @@ def run(hist, transport, path):
             try:
                 cmd = getattr(facade, c["m"])(*[val(v) for v in c.get("pos", [])], **{k: val(v) for k, v in c.get("kw", {}).items()})
                 r = dict(ok=list(cmd.datain), result={k: v for k, v in (cmd.result or {}).items() if isinstance(v, int)} if c["m"].startswith("readcap") else None)
+                if c["m"].startswith("read1"):
+                    held.append((len(res), cmd.datain))     # keep only the buffer (examples/read16.py: s.read16(..).datain), drop the command
+                cmd = None
             except Exception as e:  # noqa
                 r = dict(exn=excname(e))
             r["cdbs"] = [list(x) for x in tgt.log[n0:]]
             r["ua_terminated"] = [j - n0 for j in tgt.ua_log if j >= n0]
             res.append(r)
+        import gc
+        gc.collect()
+        for i, buf in held:
+            res[i]["late"] = list(buf)
     finally:
         try:
             dev.close()
